@@ -42,6 +42,96 @@ type Profile struct {
 	PostPct      int // % of flows whose authorization request is POSTed, parameters split between URL query and body
 	ZeroAuthPct  int // % of flows for which the storage records no authentication time
 	GrantsPct    int // % of histories with a client registered with an empty / nil / partial grant list
+	StrayPct     int // % of flows with a token request that carries parameters its grant does not define
+	RotFaultPct  int // % of flows with a refresh during which the storage refuses the rotation (CreateAccessAndRefreshTokens fails)
+	WirePct      int // % of flows with a refresh whose Basic header is encoded in a chosen way (form / %20 / lower-case hex / unencoded / twice)
+}
+
+// wireEncs: encodings of one component of the Basic header (hist.go HeaderText)
+var wireEncs = []string{"form", "pct", "lower", "raw", "twice"}
+
+// needsEscaping: ids / secrets in which some character is not an unreserved one
+func needsEscaping(v string) bool { return HeaderText("form", v) != v }
+
+// wire fixes the encodings of o's Basic header. An unencoded text that no server could decode (a '%'
+// without two hex digits: both routers answer invalid_client before anything else - not in the
+// model) is sent with %20 instead. other = the header denotes another credential than o.Cred.
+func (g *gen) wire(o *Op, encID, encSec string) (other bool) {
+	fix := func(enc, v string) (string, bool) {
+		if strings.Contains(v, ":") && enc == "raw" {
+			enc = "pct"
+		}
+		d, ok := FormUnescape(HeaderText(enc, v))
+		if !ok {
+			enc = "pct"
+			d = v
+		}
+		return enc, d != v
+	}
+	var o1, o2 bool
+	o.BasicEnc, o1 = fix(encID, o.Cred.ID)
+	o.SecEnc, o2 = fix(encSec, o.Cred.Sec)
+	g.tag("basic_id_enc=" + o.BasicEnc)
+	g.tag("basic_secret_enc=" + o.SecEnc)
+	return o1 || o2
+}
+
+var strayRefresh = []string{"code_verifier", "code", "redirect_uri", "code_challenge", "username", "password", "resource", "audience", "state", "nonce", "device_code", "assertion", "subject_token"}
+var strayCode = []string{"refresh_token", "scope", "username", "password", "resource", "audience", "state", "nonce", "device_code", "assertion", "subject_token"}
+
+// strays: one to three parameters the grant of o does not define, with plausible values (the flow's
+// own verifier / a used code / its redirect URI / its live refresh token / a scope list beyond the grant)
+func (g *gen) strays(o *Op, f *flow) {
+	pool := strayRefresh
+	if o.Kind == "code" {
+		pool = strayCode
+	}
+	n := 1 + g.r.IntN(3)
+	seen := map[string]bool{}
+	add := func(k string) {
+		if seen[k] {
+			return
+		}
+		seen[k] = true
+		v := fmt.Sprintf("stray-%x", g.r.Bytes(4))
+		switch k {
+		case "code_verifier":
+			if f.verifier != "" && g.r.Bool() {
+				v = f.verifier
+			}
+		case "code":
+			v = g.w.codeString(UnknownBase + g.r.IntN(20))
+			if len(f.used) > 0 && g.r.Bool() {
+				v = g.w.codeString(last(f.used))
+			}
+		case "redirect_uri":
+			v = f.uri
+		case "refresh_token":
+			v = g.w.realID("rt", UnknownBase+g.r.IntN(20))
+			if last(f.rts) != 0 && g.r.Bool() {
+				v = g.w.realID("rt", last(f.rts))
+			}
+		case "scope":
+			v = "openid profile email offline_access phone address"
+		}
+		o.Stray = append(o.Stray, [2]string{k, v})
+	}
+	if g.r.Chance(3, 5) { // the parameter that proves possession in the OTHER grant
+		add(pool[0])
+	}
+	for len(o.Stray) < n {
+		add(drv.Pick(g.r, pool))
+	}
+	o.Place = "stray"
+	o.StrayQuery = g.r.Chance(1, 4)
+	for _, kv := range o.Stray {
+		g.tag("stray=" + kv[0])
+	}
+	if o.StrayQuery {
+		g.tag("stray_in=query")
+	} else {
+		g.tag("stray_in=body")
+	}
 }
 
 var pauses int
@@ -484,6 +574,20 @@ func (g *gen) newFlow(routerMode int) *flow {
 			}
 		}
 	}
+	if g.r.Chance(g.p.WirePct, 150) { // a client whose id / secret need escaping in the Basic header
+		var sp []ClientInfo
+		for _, c := range g.w.Clients {
+			if needsEscaping(c.ID) || needsEscaping(c.Secret) {
+				sp = append(sp, c)
+				if d, ok := FormUnescape(c.Secret); ok && d != c.Secret { // sent unencoded, the secret is a well-formed OTHER secret
+					sp = append(sp, c)
+				}
+			}
+		}
+		if len(sp) > 0 {
+			f.cl = drv.Pick(g.r, sp)
+		}
+	}
 	f.uri = drv.Pick(g.r, f.cl.Redirects)
 	for _, u := range f.cl.Redirects { // loopback redirects (RFC 8252) are the delicate ones
 		if strings.HasPrefix(u, "http://127.") && g.r.Bool() {
@@ -569,7 +673,7 @@ func (g *gen) newFlow(routerMode int) *flow {
 		f.sub = "team:carol"
 		g.tag("subject=with-colon")
 	}
-	g.tag("client=" + f.cl.ID)
+	g.tag("client=" + strings.ReplaceAll(f.cl.ID, " ", "_"))
 	if f.method == "" {
 		g.tag("chal=none")
 	} else {
@@ -660,6 +764,9 @@ func (g *gen) newFlow(routerMode int) *flow {
 			plan = append(plan, "code-fault")
 		}
 	}
+	if g.r.Chance(g.p.StrayPct, 300) {
+		plan = append(plan, "code-stray") // weak or honest credentials + parameters of other grants
+	}
 	if !g.r.Chance(1, 10) && !f.overlapCode {
 		plan = append(plan, "code")
 	}
@@ -703,6 +810,45 @@ func (g *gen) newFlow(routerMode int) *flow {
 	}
 	if nref > 0 && g.r.Chance(g.p.OddScopePct, 100) {
 		plan = append(plan, "refresh-odd-scope", "refresh-verify")
+	}
+
+	{
+		// requests with parameters the grant does not define / with a chosen wire encoding of the Basic
+		// header: somewhere inside the refresh part of the plan (after its first step)
+		var extra []string
+		if nref > 0 && g.r.Chance(g.p.StrayPct, 100) {
+			extra = append(extra, "refresh-stray")
+			if g.r.Bool() {
+				extra = append(extra, "refresh-stray")
+			}
+			extra = append(extra, "refresh-verify")
+		}
+		if nref > 0 && g.r.Chance(g.p.RotFaultPct, 100) {
+			// the storage refuses the rotation; afterwards the owner's request must find everything as it was
+			extra = append(extra, "refresh-rot-fault")
+			if g.r.Chance(1, 3) {
+				extra = append(extra, "refresh-rot-fault")
+			}
+			extra = append(extra, "refresh-verify")
+		}
+		if nref > 0 && g.r.Chance(g.p.WirePct, 100) {
+			extra = append(extra, "refresh-wire")
+			if g.r.Bool() {
+				extra = append(extra, "refresh-wire")
+			}
+			extra = append(extra, "refresh")
+		}
+		first := -1
+		for i, x := range plan {
+			if strings.HasPrefix(x, "refresh") {
+				first = i
+				break
+			}
+		}
+		if len(extra) > 0 && first >= 0 {
+			at := first + 1 + g.r.IntN(len(plan)-first)
+			plan = append(append(append([]string{}, plan[:at]...), extra...), plan[at:]...)
+		}
 	}
 	if nref > 0 && g.r.Chance(2, 5) {
 		plan = append(plan, drv.Pick(g.r, []string{"refresh-replay", "refresh-attack"}))
@@ -756,14 +902,23 @@ func (g *gen) do(o Op) Out {
 		o.Place = "body"
 		if g.r.Chance(1, 3) {
 			o.Place = drv.Pick(g.r, places)
+		} else if g.r.Chance(1, 8) && len(g.flows) > 0 {
+			g.strays(&o, g.flows[0])
 		}
 		g.tag("place=" + o.Place)
 	}
 	if o.Fault != "" {
 		g.tag("fault=" + o.Fault)
 	}
-	if o.Cred.Kind == "basic" && g.r.Chance(1, 3) {
-		o.BasicEnc = "pct"
+	if o.Cred.Kind == "basic" && o.BasicEnc == "" && g.r.Chance(2, 5) {
+		enc := drv.Pick(g.r, wireEncs)
+		encSec := enc
+		if g.r.Chance(1, 3) {
+			encSec = drv.Pick(g.r, wireEncs)
+		}
+		if g.wire(&o, enc, encSec) && o.Mut == "" {
+			o.Mut = "basic-header-denotes-other-credential"
+		}
 	}
 	out := g.w.Exec(o)
 	g.h.Ops = append(g.h.Ops, o)
@@ -977,6 +1132,85 @@ func (g *gen) step(f *flow) {
 		o := g.honestRefresh(f)
 		o.Cred, o.Mut = g.weakCred(f.cl)
 		g.settle(f, o, g.do(o))
+	case "code-stray", "refresh-stray":
+		if kind == "refresh-stray" && last(f.rts) == 0 {
+			return
+		}
+		var o Op
+		if kind == "code-stray" {
+			o = g.honestCode(f)
+		} else {
+			o = g.honestRefresh(f)
+		}
+		switch k := g.r.IntN(8); {
+		case k < 5: // its own id without a valid proof
+			o.Cred, o.Mut = g.weakCred(f.cl)
+		case k < 6:
+			o.Cred, o.Mut = g.badCred(f.cl)
+		case k < 7 && kind == "code-stray" && f.method != "":
+			o.Ver, o.Mut = "", "missing-verifier"
+		}
+		g.strays(&o, f)
+		g.tag("place=stray")
+		if o.Mut != "" {
+			o.Mut += "+stray"
+		}
+		g.settle(f, o, g.do(o))
+	case "refresh-rot-fault":
+		if last(f.rts) == 0 {
+			return
+		}
+		{
+			o := g.honestRefresh(f)
+			o.Mut = "rotation-refused-by-storage"
+			if g.w.Opts.LiveGrants {
+				// over a storage that hands out its LIVE grant the request asks for what is granted, not less:
+				// the library narrows the request (SetCurrentScopes) before it calls the storage, so a storage
+				// that lets the library write into its own record and then fails its own rotation is left
+				// with the narrowed record (observed on the unchanged library; notes/C07.md, Findings)
+				o.Scopes = nil
+				if g.r.Bool() {
+					o.Scopes = append([]string{}, f.granted...)
+				}
+			}
+			switch g.r.IntN(6) {
+			case 0: // a request that is refused before the rotation is reached
+				o.Cred, _ = g.badCred(f.cl)
+				o.Mut = "rotation-refused-by-storage+bad-credentials"
+			case 1:
+				if ext := notIn(f.granted); len(ext) > 0 {
+					o.Scopes = append(subsetOf(g.r, f.granted), drv.Pick(g.r, ext))
+					o.Mut = "rotation-refused-by-storage+scope-superset"
+				}
+			}
+			o.Fault = "CreateAccessAndRefreshTokens"
+			g.settle(f, o, g.do(o))
+		}
+	case "refresh-wire":
+		if last(f.rts) == 0 {
+			return
+		}
+		o := g.honestRefresh(f)
+		o.Cred = Cred{Kind: "basic", ID: f.cl.ID, Sec: f.cl.Secret} // public client: the id alone
+		if f.cl.Auth == "pkjwt" {
+			o.Cred = legitCred(g.r, f.cl)
+		}
+		if o.Cred.Kind == "basic" {
+			// the unencoded header is the most likely client mistake
+			encID, encSec := drv.Pick(g.r, wireEncs), drv.Pick(g.r, wireEncs)
+			switch g.r.IntN(4) {
+			case 0:
+				encID, encSec = "raw", "raw"
+			case 1:
+				encID, encSec = drv.Pick(g.r, []string{"form", "pct", "lower"}), "raw"
+			case 2:
+				encSec = drv.Pick(g.r, []string{"form", "pct", "lower"})
+			}
+			if g.wire(&o, encID, encSec) {
+				o.Mut = "basic-header-denotes-other-credential"
+			}
+		}
+		g.settle(f, o, g.do(o))
 	case "refresh-odd-scope":
 		if last(f.rts) == 0 || len(f.granted) == 0 {
 			return
@@ -1130,6 +1364,7 @@ func (g *gen) step(f *flow) {
 		}
 		if g.r.Bool() {
 			o2.Place = o.Place
+			o2.Stray, o2.StrayQuery = o.Stray, o.StrayQuery
 		}
 		g.settle(f, o2, g.do(o2))
 	case "code-held":
@@ -1163,6 +1398,11 @@ func (g *gen) step(f *flow) {
 		}
 		if g.r.Bool() {
 			o2.Place = o.Place
+			o2.Stray, o2.StrayQuery = o.Stray, o.StrayQuery
+		} else if g.p.StrayPct > 0 && g.r.Chance(1, 3) { // something else in place of what was left out
+			g.strays(&o2, f)
+			g.tag("place=stray")
+			o2.Mut += "+stray"
 		}
 		g.settle(f, o2, g.do(o2))
 	case "refresh":
@@ -1401,7 +1641,7 @@ func (h *History) Case() emit.Case {
 		o := h.Ops[i]
 		human = append(human, map[string]any{"router": o.Router.String(), "op": o.Kind, "mut": o.Mut, "client": o.Client, "cred": o.Cred,
 			"req": o.Req, "code": o.Code, "rt": o.RT, "uri": o.URI, "ver": short(o.Ver), "scopes": o.Scopes, "answer": h.Outs[i].Human,
-			"place": o.Place, "chal": o.Method + ":" + short(o.Chal), "no_method": o.NoMethod,
+			"place": o.Place, "stray": o.Stray, "stray_in_query": o.StrayQuery, "basic_header": basicHuman(o), "chal": o.Method + ":" + short(o.Chal), "no_method": o.NoMethod,
 			"request_object": map[string]any{"kind": o.RO, "redirect_uri": o.ROURI, "scope": o.ROScopes, "nonce": o.RONonce, "code_challenge": short(o.ROChal), "code_challenge_method": o.ROMethod}})
 	}
 	in := emit.Ctor("MkIn", h.W.CfgCoq(), h.W.HashTableCoq(), emit.List(ops))
@@ -1411,6 +1651,14 @@ func (h *History) Case() emit.Case {
 	}
 	sort.Strings(tags)
 	return emit.Case{Input: in, Observed: emit.Ctor("Obs", emit.List(outs)), Tags: tags, Human: human}
+}
+
+// basicHuman: the Basic header texts as sent (id, secret) with their encodings
+func basicHuman(o Op) any {
+	if o.Cred.Kind != "basic" || (o.Kind != "code" && o.Kind != "refresh") {
+		return nil
+	}
+	return map[string]string{"id_enc": o.BasicEnc, "secret_enc": o.secEnc(), "id_text": HeaderText(o.BasicEnc, o.Cred.ID), "secret_text": HeaderText(o.secEnc(), o.Cred.Sec)}
 }
 
 func short(v string) string {
